@@ -157,6 +157,13 @@ func (i *interpreter) zzCall(fr *frame, fn *ssa.Function, args []value) value {
 		case sym:
 			px.assertTerm(c.t)
 			px.assumes++
+			// keep the invariant "path condition is satisfiable"
+			switch px.sol.checkSat("") {
+			case "unsat":
+				panic(killPath{"assumption infeasible"})
+			case "error":
+				panic(unsupported{"solver error at Assume: " + strings.Join(px.sol.errs, "; ")})
+			}
 		}
 		return nil
 	case "Assert":
